@@ -197,6 +197,21 @@ def absorb(res: core.Result, part: str, run_ref: str, out: Dict[str, Any], confi
     cov["stock_loop_audit_tie_free"] = cov.get("stock_loop_audit_tie_free", 0) + out.get("fidelity_tiefree", 0)
 
 
+def with_debug_logging(cfgs: Sequence[Any], every: int = 1, limit: int = 4000) -> List[Any]:
+    """A deterministic subset of the configurations, to be run again with logging enabled at DEBUG."""
+    out = [dict(c, _log="debug") for c in list(cfgs)[::max(1, every)] if isinstance(c, dict)]
+    return out[:limit]
+
+
+def debug_pass(res: core.Result, part: str, run_ref: str, cfgs: Sequence[Any], every: int = 1, limit: int = 4000, **kw) -> None:
+    """Re-run a deterministic subset of the configurations with the library's logging enabled at DEBUG."""
+    dbg = with_debug_logging(cfgs, every, limit)
+    if not dbg:
+        return
+    out = explorer.explore(run_ref, dbg, **kw)
+    absorb(res, part + "+debug-logging", run_ref, out, dbg, min_outcomes=1)
+
+
 def replay(args: Dict[str, Any]) -> Dict[str, Any]:
     ctl, obs = explorer.replay_one(args["run_ref"], args["cfg"], args["choices"], args.get("init_ref"))
     obs = dict(obs)
